@@ -222,7 +222,12 @@ def run_tlc(module, cfg, workers=None, simulate=None, depth=None, timeout=900, s
     if "Error:" in out and not res["violated"]:
         res["error"] = out[out.index("Error:"):][:2000]
     if coverage:
-        res["zero_coverage"] = re.findall(r"^<(\w+) line \d+.*>: 0:0$", out, re.M)
+        # per-action counts of the LAST coverage report: <Action line .. of module M>: distinct:generated
+        acts = {}
+        for mm in re.finditer(r"^<(\w+) line \d+, col \d+ to line \d+, col \d+ of module (\w+)>: (\d+):(\d+)$", out, re.M):
+            acts[mm.group(1)] = [int(mm.group(3)), int(mm.group(4))]
+        res["action_coverage"] = acts
+        res["zero_coverage"] = sorted(a for a, v in acts.items() if v[1] == 0)
     shutil.rmtree(d, ignore_errors=True)
     return res
 
@@ -287,6 +292,10 @@ class Result:
         self.cov["transitions"] += res.get("states_generated", 0)
         self.cov.setdefault("tlc_runs", []).append({"cfg": name, "distinct": res.get("distinct"), "generated": res.get("states_generated"),
                                                     "depth": res.get("depth"), "wall_s": round(res["wall_s"], 1), "cmd": res["cmd"]})
+        if "action_coverage" in res:
+            # vacuity: an action that was never taken means the invariants were never evaluated behind it
+            self.cov["tlc_runs"][-1]["actions_taken"] = res["action_coverage"]
+            self.cov["tlc_runs"][-1]["actions_never_taken"] = res["zero_coverage"]
 
     def sample(self, s, limit=5):
         if len(self.cov["samples"]) < limit:
